@@ -926,3 +926,58 @@ Proof.
   intros Hn Hd. pose proof (rate_roundtrip_window n d [110; 115] 1 Hn ltac:(left; reflexivity) ltac:(lia) ltac:(lia)) as H.
   rewrite Z.mul_1_r in H. exact H.
 Qed.
+
+(* ---------------------------------------------------------------- round trip of IP flags (ASCII letter case) *)
+
+Definition ascii (s : bytes) : Prop := Forall (fun c => c < 128) s.
+
+Lemma to_lower_ascii s : ascii s -> to_lower s = map lower_byte s.
+Proof.
+  induction s as [|a t IH]; intros H; [reflexivity|]. inversion H; subst. cbn [to_lower map].
+  destruct t as [|b u]; [reflexivity|].
+  replace (a =? 196) with false by (symmetry; apply Z.eqb_neq; lia). cbn [andb].
+  replace (a =? 226) with false by (symmetry; apply Z.eqb_neq; lia). cbn [andb].
+  rewrite (IH H3). destruct u; reflexivity.
+Qed.
+
+Lemma ascii_join ws : Forall ascii ws -> ascii (join 44 ws).
+Proof.
+  induction 1 as [|w ws Hw Hws IH]; [constructor|]. destruct ws as [|w' ws']; [exact Hw|].
+  rewrite join_cons by discriminate. apply Forall_app. split; [exact Hw|]. constructor; [lia|exact IH].
+Qed.
+
+Lemma map_lower_join ws : map lower_byte (join 44 ws) = join 44 (map (map lower_byte) ws).
+Proof.
+  induction ws as [|w ws IH]; [reflexivity|]. destruct ws as [|w' ws']; [reflexivity|].
+  rewrite join_cons by discriminate. cbn [map]. rewrite join_cons by discriminate.
+  rewrite map_app. cbn [map]. rewrite IH. reflexivity.
+Qed.
+
+Lemma flag_name_no_comma table n : is_flag_name table n = true -> Forall (fun kv => mem 44 (str (fst kv)) = false) table -> mem 44 n = false.
+Proof.
+  unfold is_flag_name. destruct (lookup_key n table) as [b|] eqn:E; [|discriminate]. intros _ H.
+  apply lookup_key_in in E. destruct E as [k [Hin ->]]. rewrite Forall_forall in H. apply (H _ Hin).
+Qed.
+
+Lemma rfc_ip_no_comma : Forall (fun kv : string * Z => mem 44 (str (fst kv)) = false) rfc_ip_flags.
+Proof. repeat constructor. Qed.
+
+(* any sequence of the three names (any subset, order, repetition), each written in any ASCII letter case,
+   joined by commas, parses to exactly the union of their bits *)
+Lemma parse_ip_flags_roundtrip (Hcheck : ip_table_check = true) written names :
+  names <> [] -> Forall ascii written ->
+  Forall2 (fun w n => map lower_byte w = n /\ is_flag_name rfc_ip_flags n = true) written names ->
+  parse_ip_flags (join 44 written) = Some (rfc_bits rfc_ip_flags names).
+Proof.
+  intros Hne Ha H.
+  assert (Hmap : map (map lower_byte) written = names).
+  { clear Hne Ha. induction H; [reflexivity|]. cbn [map]. destruct H as [-> _]. f_equal. exact IHForall2. }
+  assert (Hnames : Forall (fun n => is_flag_name rfc_ip_flags n = true) names).
+  { clear Hne Ha Hmap. induction H; constructor; tauto. }
+  assert (Hsplit : split_on 44 (to_lower (join 44 written)) = names).
+  { rewrite to_lower_ascii by (apply ascii_join; exact Ha). rewrite map_lower_join, Hmap. apply split_join; [exact Hne|].
+    eapply Forall_impl; [|exact Hnames]. intros n Hn. apply (flag_name_no_comma rfc_ip_flags n Hn rfc_ip_no_comma). }
+  apply (parse_ip_flags_exact Hcheck). right. rewrite Hsplit. split; [|split; [exact Hnames|reflexivity]].
+  intros E. assert (L : split_on 44 (to_lower (join 44 written)) = [[]]) by (rewrite E; reflexivity).
+  rewrite Hsplit in L. subst names. inversion Hnames; subst. discriminate.
+Qed.
